@@ -472,6 +472,16 @@ def _stats_entries(prog: Program, fn: FuncInfo) -> List[Tuple[Any, Any, Optional
             if verdict is None:
                 raise AnalysisError(f"{fn.fq}: the aggregator of an entry is chosen by a test that is not decided per table row")
             core = ast.copy_location(ast.Call(func=core.func.body if verdict else core.func.orelse, args=core.args, keywords=core.keywords), core)
+        if isinstance(core, ast.Call) and isinstance(core.func, ast.Name) and core.func.id in ("sum", "max") and len(core.args) == 1 \
+                and isinstance(core.args[0], (ast.GeneratorExp, ast.ListComp)) and len(core.args[0].generators) == 1 and not core.args[0].generators[0].ifs \
+                and ast.unparse(core.args[0].generators[0].iter) == "self.statistics" and isinstance(core.args[0].generators[0].target, ast.Name):
+            # the aggregation written in place (or an aggregator helper inlined by the front end):  sum(int(s[IDX]) for s in self.statistics)
+            tv = core.args[0].generators[0].target.id
+            el = core.args[0].elt
+            if isinstance(el, ast.Call) and isinstance(el.func, ast.Name) and el.func.id == "int" and len(el.args) == 1:
+                el = el.args[0]
+            if isinstance(el, ast.Subscript) and isinstance(el.value, ast.Name) and el.value.id == tv:
+                return (lbl, val(el.slice), "builtin:" + core.func.id, src, getattr(v, "lineno", 0), whole)
         if isinstance(core, ast.Call) and isinstance(core.func, ast.Name):
             aggname = core.func.id
             if len(core.args) == 2 and ast.unparse(core.args[0]) == "self.statistics":
@@ -556,8 +566,12 @@ def rule_stats_map(ctx: Ctx, prog: Program) -> None:
             want = ""
             if agg:
                 want = "max" if lbl == "SOLVER_CHOICE_DEPTH" else "sum"
-                r_ = prog.resolve(fn.module, aggname) if aggname else None
-                okk = okk and bool(r_) and r_[0] == "func" and (_agg_kind(r_[1]) == want or (lbl not in STAT_NAMES and _agg_kind(r_[1]) in ("sum", "max")))
+                if aggname and aggname.startswith("builtin:"):
+                    kind_ = aggname.split(":", 1)[1]
+                    okk = okk and (kind_ == want or lbl not in STAT_NAMES)
+                else:
+                    r_ = prog.resolve(fn.module, aggname) if aggname else None
+                    okk = okk and bool(r_) and r_[0] == "func" and (_agg_kind(r_[1]) == want or (lbl not in STAT_NAMES and _agg_kind(r_[1]) in ("sum", "max")))
                 want += " over the workers"
             else:
                 okk = okk and aggname in (None, "int")
@@ -575,7 +589,11 @@ def rule_stats_map(ctx: Ctx, prog: Program) -> None:
     # aggregators: every function used to aggregate must be sum / max of int(s[index]) over every worker
     mod = f"{prog.package}.solvers.multiprocessing_solver"
     mp = prog.func(mod, "MultiprocessingSolver.get_statistics")
-    used = sorted({a for _, _, a, _, _, _ in _stats_entries(prog, mp) if a})
+    all_aggs = {a for _, _, a, _, _, _ in _stats_entries(prog, mp) if a}
+    inline_aggs = {a for a in all_aggs if a.startswith("builtin:")}
+    for a in sorted(inline_aggs):
+        ctx.ok("R-STATS-MAP", f"aggregation written in place: {a.split(':', 1)[1]} of the counter over all workers")
+    used = sorted(all_aggs - inline_aggs)
     for name in used:
         r = prog.resolve(mod, name)
         if not (r and r[0] == "func"):
@@ -586,7 +604,7 @@ def rule_stats_map(ctx: Ctx, prog: Program) -> None:
             ctx.ok("R-STATS-MAP", f"{name} = {kind} over all workers of the counter at the given index")
         else:
             ctx.violation("R-STATS-MAP", r[1].path, name, "aggregator", r[1].loc(), f"{name} must be sum / max of int(s[index]) for s in stats over every worker")
-    ctx.floor("R-STATS-MAP:aggregators", len(used), 2)
+    ctx.floor("R-STATS-MAP:aggregators", len(used) + len(inline_aggs), 2)
     # the statistics array has STATS_MAX int64 cells
     fn = prog.func(f"{prog.package}.solvers.backtrack_solver", "BacktrackSolver.__init__")
     src = ast.unparse(fn.node)
